@@ -24,10 +24,10 @@ CHECKS = {
  "C04": dict(cat="other", tech="abstract interpretation of optimised LLVM IR; bitwise/shift/rotate normal forms, x86 shift intrinsics by SDM saturation semantics, every compile-time amount enumerated; emulated run-time amounts by a complete case split on the amount (each value substituted, wrapper re-summarised) after a syntactic lane-independence check",
    text="& | ^ ~, shifts by scalar / per-lane vector / compile-time amount (every S in [0,bits]) and rotations (compile-time amounts up to 2*bits+3, run-time scalar and per-lane) of every integer vector type x configuration must normalise to the saturating shift / funnel-shift closed form of the same lane; amounts are constrained to the documented domain by the argument encoding.",
    note=TB + "; shift amounts assumed in [0, 2*bits) (superset of the documented [0,bits])", ref="4/C04"),
- "C06": dict(cat="other", tech="abstract interpretation of optimised LLVM IR into closed forms; ctpop/ctlz/cttz/bswap primitive normal forms and byte provenance; truth tables for 8/16-bit lanes; known-bits x interval abstract interpretation under complete case splits (position of the highest/lowest set or clear bit) for 32/64-bit lanes incl. int->float-exponent emulations; poison (zero-undef, over-wide shift) reachable on a valid input is a refutation",
+ "C06": dict(cat="other", tech="abstract interpretation of optimised LLVM IR into closed forms; ctpop/ctlz/cttz/bswap primitive normal forms and byte provenance; truth tables for 8/16-bit lanes; known-bits x interval abstract interpretation under complete case splits (position of the highest/lowest set or clear bit) for 32/64-bit lanes incl. int->float-exponent emulations; poison (zero-undef, over-wide shift) reachable on a valid input is a refutation; ROBDD comparison (canonical form per output bit, lib/bdd.py) of integer closed forms that the other procedures leave open (SWAR popcount on 32/64-bit lanes)",
    text="popcount, countl/r_zero/one, bit_width, has_single_bit, countl_sign are decided where the build's ISA gives the primitive (LZCNT/BMI/POPCNT/AVX-512CD/VPOPCNTDQ/BITALG) by normal form; byteswap is decided for all types by byte provenance; emulated versions are compared as closed forms against the <bit> definition (REFUTED with a witness when they are fully interpreted and differ, otherwise UNDECIDED and listed).",
    note=TB + "; the abstract transfer functions over-approximate the concrete evaluator (bin/selftest_absint.py); SWAR popcount on 32/64-bit lanes stays UNDECIDED, not covered", ref="4/C06"),
- "C07": dict(cat="other", tech="abstract interpretation of optimised LLVM IR; select/min/max/abs/sign-bit normal forms; carry-save averaging identity and adder narrowing as normal-form rules, alternative specification form for midpoint (derivation in spec/ops.py, cross-checked exhaustively at 8 bits on every run); ordered-case table for float min/max",
+ "C07": dict(cat="other", tech="abstract interpretation of optimised LLVM IR; select/min/max/abs/sign-bit normal forms; carry-save averaging identity and adder narrowing as normal-form rules, alternative specification form for midpoint (derivation in spec/ops.py, cross-checked exhaustively at 8 bits on every run); ordered-case table for float min/max; ROBDD comparison (canonical form per output bit) for two-operand 32/64-bit integer forms (signed average / midpoint emulations with comparison-based rounding corrections)",
    text="blend/keep/clear (select on the mask lane, operand order), integer min/max/minmax/clamp (predicate of the type's signedness), abs/neg_abs/negate (no nsw: abs(MIN) is MIN's pattern), float abs/neg_abs/negate/copysign (sign bit only), float min/max (picks smaller/larger operand in both strict orderings) are decided for every type x configuration; average/midpoint emulations are compared as closed forms (witness-refutable, else UNDECIDED).",
    note=TB + "; clamp witnesses restricted to lo<hi; float min/max only for ordered inputs as the statement scopes it", ref="4/C07"),
  "C08": dict(cat="other", tech="byte provenance over optimised LLVM IR (load/store/masked/gather/scatter/shuffle transfer functions), exhaustive over element counts and lane indices; alignment-claim and poison obligations",
@@ -42,13 +42,13 @@ CHECKS = {
  "C13": dict(cat="other", tech="finite partition decision procedures over closed forms: field-aligned partition (sign x exponent x mantissa intervals) and, for compares assembled from sub-field pieces, the general segment partition (lane cut at every atom boundary, representatives realising every per-segment trichotomy); fcmp predicate normal forms",
    text="fpclassify/isnan/isinf/isfinite/isnormal/signbit of every float type x configuration: the lane's closed form may touch the value only through field-aligned comparison atoms (whole pattern, abs, exponent, mantissa, sign, vfpclass); it is then constant on each cell of a finite partition and is evaluated on every cell against the C library classification - exhaustive for all 2^32 / 2^64 patterns. Quiet comparisons must be the fcmp predicate of that name.",
    note=TB + "; SDM VFPCLASS category table", ref="4/C13"),
- "C17": dict(cat="other", tech="byte/bit provenance over optimised LLVM IR for every provided conversion pair",
+ "C17": dict(cat="other", tech="byte/bit provenance over optimised LLVM IR for every provided conversion pair, incl. bit_cast between mask types of identical primitive size (identity on the primitive)",
    text="convert<>, converting constructors, mask conversions and bit_cast for every provided pair of types of every configuration must be the identity on the representation (truth value per lane for masks, k-mask upper bits clear); width-1 cross-size conversions must be exactly trunc / sext-iff-signed / zext.",
    note=TB + "; bit_cast analysed in the memcpy variant (C++11, clang)", ref="4/C17"),
  "C05": dict(cat="other", tech="bisimulation equality of optimised function bodies (A-ireq), trap-effect inventory with non-zero-divisor proof over terms, closed-form comparison of the emulations (bounded loops unrolled by the IR->term interpreter until the back-edge condition normalises to false)",
-   text="NARROW CLAIM. Decided for every integer vector type x configuration: (a) x/y, x%y, /=, %= have bodies bisimilar to div(x,y).quot/.rem, so div returns the same pair as / and %; (b) no multi-lane div contains a hardware division whose divisor can be zero (term-level non-zero proof), positive control on width-1; (c) division emulations - loop-free ones and long-division loops with a constant trip bound, unrolled - are compared as closed forms with truncating division on the lane for non-zero divisors (8-bit table-based forms by truth table; otherwise refutable by witness incl. cross-lane probes); the comparison is repeated with the lanes whose own divisor is invalid masked out on both sides over inputs that contain zero divisors, which decides 'a zero divisor in one lane does not change any other lane' on the refutation side. NOT decided: value exactness of the long-division and reciprocal emulations where no witness is found (UNDECIDED, listed).",
+   text="NARROW CLAIM. Decided for every integer vector type x configuration: (a) x/y, x%y, /=, %= have bodies bisimilar to div(x,y).quot/.rem, so div returns the same pair as / and %; (b) no multi-lane div contains a hardware division whose divisor can be zero (term-level non-zero proof), positive control on width-1; (c) division emulations - loop-free ones and long-division loops with a constant trip bound, unrolled - are compared as closed forms with truncating division on the lane for non-zero divisors (8-bit table-based forms by truth table; otherwise refutable by witness incl. cross-lane probes); the comparison is repeated with the lanes whose own divisor is invalid masked out on both sides over inputs that contain zero divisors, which decides 'a zero divisor in one lane does not change any other lane' on the refutation side; for 8/16-bit lanes the masked forms are also compared as ROBDDs (truncating division blasted as a restoring divider; other lanes optionally abstracted into free variables), which proves that clause and value exactness for the emulations whose diagrams stay within the node budget. NOT decided: value exactness of the long-division and reciprocal emulations where no witness is found (UNDECIDED, listed).",
    note=TB + "; lane independence of the SSE2..AVX2 loops is not claimed (cross-lane loop exit condition)", ref="4/C05"),
- "C20": dict(cat="proof", tech="effect inventory over the resolved IR of every prefetch instantiation (no load/store/call other than llvm.prefetch; operand and stride checks)",
+ "C20": dict(cat="proof", tech="effect inventory over the resolved IR of every prefetch instantiation (no load/store/call other than llvm.prefetch; operand and stride checks; a hardware division needs a provably non-zero divisor; loop termination rule)",
    text="Every instantiation of prefetch_read/prefetch_write (3 levels x untyped/typed x default n) at -O1 and -O2 in each analysed configuration contains only address arithmetic, control flow and llvm.prefetch(p+i, rw, 3-level, data) with a positive constant stride; llvm.prefetch has no effect on program behaviour (LangRef) and PREFETCHh never faults (SDM).",
    note="LLVM LangRef llvm.prefetch; SDM PREFETCHh; GCC takes the same source branch (C19 branch-selection equality)", ref="4/C20", engine="E4-effects"),
  "C16": dict(cat="other", tech="closed-form comparison of every scalar overload with the lane specification per scalar feature set; bisimulation vs the width-1 vector operation; UB obligations on unoptimised IR",
@@ -60,7 +60,7 @@ CHECKS = {
  "C18": dict(cat="other", tech="symbolic summary of allocate/deallocate from optimised IR per (T, A, build, n): primitive pairing, size sufficiency, low-bit alignment proof, bookkeeping store provenance and claimed-vs-provable alignment",
    text="For T in {1,2,4,8,16,64-byte types} x A in {alignof(T)..4096} x builds {no macro C++11/14/17/20, SSE2 C++11/17} x n (incl. 0 and sizes not multiple of 8): allocate calls exactly one allocation primitive with a sufficient size (over-allocation: n*sizeof(T)+(A-1)+sizeof(size_t)), the returned pointer's low log2(A) bits are provably zero (or it is the primitive's pointer with a sufficient alignment argument), the offset word is written at aligned+n*sizeof(T) with value aligned-raw by an access that claims no more alignment than provable; deallocate frees exactly the pointer obtained (p, or p minus the word read byte-wise from the same place). The header must compile in every build. Any history reduces to independent pairs because the allocator is stateless (static_assert) and touches no global.",
    note="C library allocation contracts; clang -O2 preserves UB-free meaning; histories are reduced to per-call rules by statelessness", ref="4/C18", engine="E3-lanewise"),
- "C19": dict(cat="other", tech="compile-fail / static_assert / SFINAE witnesses with g++ and clang++, compile-time constants read from IR, preprocessor conditional-region equality, wrapper catalogue as declared-and-defined parity witness",
+ "C19": dict(cat="other", tech="compile-fail / static_assert / SFINAE witnesses with g++ and clang++, compile-time constants read from IR, preprocessor conditional-region equality, wrapper catalogue as declared-and-defined parity witness; every implication documented in docs/Capabilities.md checked against the macro closure computed by the preprocessor",
    text="Enumerates the macro-set lattice (each single macro with only its own flag, ladder prefixes, AVX-512 sub-extension combinations, full set) x {explicit, AVEL_AUTO_DETECT} x {g++, clang++} x standards: both public headers must compile; AVEL_AUTO_DETECT must give the same complete Vector<T,N> set and natural/max widths; static_assert witnesses demand exactly the documented widths, alias identities and completeness of vecNx*/vecMx*/mask/arr aliases, sizeof == N*sizeof(T), trivial copyability and mask triviality; every catalogue operation the width-1 vector of an element type offers must compile AND reach no declared-but-undefined avel function for every wider vector; g++ and clang++ must activate the same conditional regions outside AVEL_GCC/AVEL_CLANG blocks.",
    note="g++ 12 / clang++ 14 front ends; NEON/MSVC/ICPX/AVX10 branches cannot be analysed here; the x86-64 baseline makes auto-detect comparison meaningless for macro sets without SSE2 (UNDECIDED)", ref="4/C19", engine="E2-witness"),
  "C14": dict(cat="other", tech="closed-form summary of div(n, Denominator<T>(d)) from optimised IR; truth-table equivalence with truncating division for the 8-bit types (all 2^16 pairs), boundary-lattice refutation search and UB obligations for wider types; bisimulation of operator forms",
